@@ -417,4 +417,24 @@ theorem copying_rows (T : Table) (op : Op) (h : op.copying T = true) :
   · left; exact h1
   · right; exact h1
 
+/-! ### the real table copies at every final position that touches the store -/
+
+theorem final_rows_copy : ∀ p, p ∈ finalPositions →
+    p.flow = .callerToCaller ∨ chainDeep (copyDiscipline.disc p) = true := by decide
+
+theorem wellFormed_safe (w : World) (s : Step) (hw : s.wellFormed = true)
+    (hc : s.callerOwns w = true) : s.safe copyDiscipline w = true :=
+  within_safe copyDiscipline finalPositions final_rows_copy w s hw hc
+
+theorem wfRun_safeRun : ∀ (steps : List Step) (w : World), wfRun copyDiscipline w steps = true →
+    safeRun copyDiscipline w steps = true := by
+  intro steps
+  induction steps with
+  | nil => intro w _; simp [safeRun]
+  | cons s r ih =>
+    intro w h
+    simp only [wfRun, Bool.and_eq_true] at h
+    simp only [safeRun, Bool.and_eq_true]
+    exact ⟨wellFormed_safe w s h.1.1 h.1.2, ih _ h.2⟩
+
 end MongoModel.Proofs.C07
